@@ -497,6 +497,18 @@ def mutants(prog, rnd, per_op):
         for how in ("cb-not-event", "cb-param-type", "cb-arity", "cb-ret", "cb-unknown", "trigger-unknown", "trigger-not-imported", "arg-type", "arg-arity",
                     "cb-param-name", "self"):
             emit(trig_mut(how), "trigger-" + how)
+    # singleton types: a field (or the whole type) without a default value
+    sing_idx = [j for j, g in enumerate(prog["globals"]) if g.get("decl")]
+    for j in sing_idx[:per_op]:
+        for bad in ("fn() -> int", "any", "{ inner: fn(a: int) -> null }", "[fn() -> int]", "?int"):
+            def m(q, j=j, bad=bad):
+                g = q["globals"][j]
+                d = g["decl"].strip()
+                g["decl"] = "{ extra: %s, %s" % (bad, d[1:].lstrip()) if d.startswith("{") and not d.startswith("{ ?") else bad
+                if bad in ("[fn() -> int]", "?int") and not d.startswith("{"):
+                    return False      # (the functions use the singleton at its old type: more than one fault)
+                g["e"] = {"k": "default", "t": parse_type(g["decl"])}
+            emit(m, "singleton-field-" + re.sub(r"[^a-z]+", "-", bad).strip("-"))
     # M13 call something that is no function / index something that is no container
     lets = [j for j, n in enumerate(nodes([prog["fns"][f]["body"] for f in fnames])) if n.get("k") == "var"]
     for j in (lets if len(lets) <= per_op // 2 + 1 else rnd.sample(lets, per_op // 2 + 1)):
